@@ -200,5 +200,5 @@ def r16_2(ctx, g):
 
 
 def run(ctx):
-    g = r16_1(ctx)
-    r16_2(ctx, g)
+    g = ctx.step(r16_1, ctx)
+    ctx.step(r16_2, ctx, g)
